@@ -25,10 +25,17 @@ PROP = "C03"
 INFO = dict(
     technique="Lean 4 proof over an executable model of the composition machinery (exact rational matrices of any "
               "dimension side by side in one reference store, the isinstance ladder transcribed branch for branch, "
-              "chains as reference lists, WithDims as a dimension-changing slicer, from_vector of every family class) "
-              "+ class table and method-resolution table regenerated from the live classes with `decide` obligations "
+              "chains as reference lists, WithDims as a dimension-changing slicer in every numpy spelling, from_vector "
+              "of every family class) + the SOURCE TEXT of the composition machinery translated into Lean on every run "
+              "(harness/py2lean.py + harness/trans_c03.py: the ladder, the public entry points compose_before/after/"
+              "_inplace of Transform and ComposableTransform, the naive copy-then-inplace composition, "
+              "TransformChain._compose_*_inplace, Homogeneous._compose_*_inplace through the three _set_h_matrix, the "
+              "five as_non_alignment, from_vector / compose_after_from_vector_inplace, TransformChain._apply, Affine.decompose, "
+              "DiscreteAffine.decompose and the Scale factory) and proved equal to the model functions the theorems "
+              "are about, method dispatch going through the regenerated method-resolution table "
+              "+ class table, method table and gate table regenerated from the live classes with `decide` obligations "
               "+ model/implementation correspondence on all class pairs, cross-dimension pairs, nested and "
-              "self-containing chains and random programs",
+              "self-containing chains, aliased operands, unusual dtypes / memory layouts and random programs",
     level_text="Theorems, for every dimension and all parameter values: composition law for compose_before/after "
                "(every pair of the 12 family classes; projective Homogeneous wherever denominators are non-zero; "
                "chains, WithDims - dimension-changing included - and opaque transforms by structural denotation), "
@@ -43,20 +50,31 @@ INFO = dict(
                "class and every non-receiver stays the same cell along every finite program (induction over "
                "programs), a dimension calculus is sound for apply and total on affine chains, Affine.decompose "
                "recomposes and returns honest pieces under the SVD contract (with the determinant bookkeeping that "
-               "says when a piece is a reflection).  The class structure and the method resolution the theorems "
-               "quantify over are tied to /repo by the regenerated tables (`classTable_ok`, `methodTable_ok`), the "
-               "behaviour by the correspondence, and an independent oracle decides the property on the real objects.",
+               "says when a piece is a reflection), and the pieces folded back with compose_before are one honest "
+               "object holding the matrix whose class is the join of the piece classes.  Class algebra: the reported "
+               "class is the least upper bound of the operand classes (commutative, associative, idempotent up to "
+               "alignment stripping; all 12^3 triples), so the class of the value of any nested expression of "
+               "compose calls over all sixteen kinds of operand is the join of the operand classes and a chain "
+               "exactly when a non-family operand occurs (induction over expression trees).  WithDims with negative "
+               "indices, integer arrays, a single integer and slices is an index list (slices never raise, step 0 "
+               "always does).  The class structure, the method resolution and the gates the theorems quantify over "
+               "are tied to /repo by the regenerated tables (`classTable_ok`, `methodTable_ok`, `otherGates_ok`), the "
+               "function bodies by the translation obligations (`genLadder_eq`, `entryCompose_eq`, `entryInplace_eq`, "
+               "`entryFromVector_eq`, `genHomogInplace_eq`, `genChainInplace_eq`, `sup_fam_ana`, `genScale_eq`, "
+               "`entryDecompose_eq`), the behaviour by the correspondence, and an independent oracle decides the "
+               "property on the real objects.",
     level_note="Trusted: Lean kernel; axioms propext/Classical.choice/Quot.sound; harness/extract_c03.py, this "
                "harness and the driver's parser; numpy's dot/svd (the SVD contract L = U diag(s) V, U and V "
                "orthogonal, s > 0 is checked numerically on every decomposition case); float rounding is outside the "
                "model (exact rationals; comparison 1e-9 relative plus an error bound from the product of operand "
                "norms).",
     rule="a case is one statement executed on the real objects (a pair / cross-dimension / from-vector / nested-chain / "
-         "self-containing-chain battery statement or one step of a random program of 2-8 compose calls over a store "
-         "of 3-7 atoms, three programs in ten mixing 2-D and 3-D atoms with WithDims slicers), one from_vector "
-         "matrix, one apply or one decomposition; distinct = distinct (dimension, operation, operand kinds, operand "
-         "parameters and previous lives); non-trivial = both operands are not identity maps (always, by construction "
-         "of the generators)",
+         "self-containing-chain / dtype-and-layout / aliased-operand / identity-operand battery statement or one step "
+         "of a random program of 2-8 compose calls over a store of 3-7 atoms, three programs in ten mixing 2-D and 3-D "
+         "atoms with WithDims slicers in every spelling), one from_vector matrix, one apply or one decomposition; "
+         "distinct = distinct (dimension, operation, operand kinds, operand parameters and previous lives); "
+         "non-trivial = both operands are not identity maps (by construction of the generators, except the "
+         "statements of the identity-operand battery, which are counted as trivial)",
     partial=["Affine.decompose: numpy's SVD is a contract parameter (L = U diag(s) V with U, V orthogonal and s > 0, "
              "checked numerically per case - singular values are irrational); the Scale factory's np.allclose decision "
              "is a Boolean input of the model: recomposition is proved when it says 'uniform' only for equal factors "
@@ -67,14 +85,18 @@ INFO = dict(
              "from_vector of Translation / NonUniformScale given a vector of another length: the model follows numpy's "
              "broadcasting / cycling as coded; this is compared on from_vector directly (a refusal would be accepted "
              "as well) and such vectors are not used inside programs",
-             "WithDims is modelled for index lists and Boolean masks (the two documented spellings); slices and "
-             "negative indices are not generated",
+             "the translated entry points treat copy(), _from_vector_inplace (numpy code per class, modelled as "
+             "fromVec and compared case by case), np.dot, np.linalg.svd and np.allclose as vocabulary: their meaning "
+             "is the hand-written model's, tied by the correspondence",
              "a chain appended to something that contains it: the model says 'no denotation at any fuel', the "
              "implementation raises RecursionError on apply; tied by the correspondence, not judged by the oracle "
              "(the property does not speak about it)"],
     assumptions=["operands are honest and invertible when created (constructor arguments really are rotations, "
                  "non-zero scales, ...; checked on every atom)",
                  "probe points at which a projective Homogeneous operand has a denominator below 1e-3 are skipped",
+                 "WithDims arguments are those for which x[:, dims] is a point set again: an index list / tuple / "
+                 "integer array with entries of either sign, a Boolean mask, a slice, Ellipsis, a single integer "
+                 "(a multi-dimensional index array or None would add an axis)",
                  "parameter vectors given to compose_after_from_vector_inplace describe honest invertible members "
                  "(non-zero scales, non-degenerate similarity; side condition `Proper` of the program theorems)"],
     design_ref="DESIGN.md section 6, C03")
@@ -89,7 +111,11 @@ THEOREMS = [NS + t for t in [
     "prog_honest", "prog_denotation", "prog_frame", "prog_class_stable",
     "decompose_recomposes", "decompose_pieces_honest", "decompose_reflection", "decompose_discrete",
     "decompose_near_tie_witness", "det_lin_mul", "method_resolution_family", "method_resolution_others",
-    "coded_inplace_breaks_honesty", "coded_program_breaks_law"]]
+    "coded_inplace_breaks_honesty", "coded_program_breaks_law",
+    # round 2: class algebra, expression trees, WithDims spellings, self-composition, decomposition folded back
+    "join_comm_assoc", "join_least", "join_idem_strip", "joinAll_perm", "kind_eq_joinAll", "expr_class_join",
+    "compose_with_itself", "decompose_fold_class", "withIdx_eq_withDims", "normIndex_spec", "withSlice_eq_withDims",
+    "applyRef_eq_flat"]]
 
 FAMILY = extract_c03.ORDER
 BASE = {"AlignmentAffine": "Affine", "AlignmentSimilarity": "Similarity", "AlignmentRotation": "Rotation",
@@ -275,12 +301,60 @@ def gen_atom(rng, kind, d, n_existing=0, chainable=None):
         perms = ([[1, 0], [1, 0], [0, 1, 0], [1, 1, 0]] if d == 2
                  else [[1, 0, 2], [2, 0, 1], [0, 2, 1], [0, 1], [0, 2], [2, 1], [1, 0]])
         r["dims"] = rng.choice(perms)
-        if rng.random() < 0.25:       # the other documented spelling: a Boolean mask over the axes
+        u = rng.random()
+        if u < 0.2:       # the other documented spelling: a Boolean mask over the axes
             r["dims"] = rng.choice([[True, True], [True, False]] if d == 2
                                    else [[True, True, False], [True, False, True], [False, True, True], [True, True, True]])
             r["mask"] = rng.choice(["array", "list"])
+        elif u < 0.4:     # every other "valid numpy array slice": negative indices (list or integer array)
+            r["dims"] = [i - d if rng.random() < 0.6 else i for i in r["dims"]]
+            if rng.random() < 0.3:
+                r["as_array"] = True
+            elif rng.random() < 0.3:
+                r["as_tuple"] = True
+        elif u < 0.6:     # a Python slice (bounds beyond the dimension are clipped, never an IndexError)
+            r["slice"] = rng.choice(
+                [[None, None, -1], [None, 2, None], [1, None, None], [None, None, 2], [-2, None, None], [0, 5, 1],
+                 [None, -1, None], [-1, None, -1], [1, 0, -1], [None, None, None]])
+            del r["dims"]
+        elif u < 0.68:    # a single integer: one column, kept two-dimensional by _apply
+            r["int"] = rng.choice(list(range(-d, d)))
+            del r["dims"]
+        elif u < 0.72:
+            r["ellipsis"] = True
+            del r["dims"]
     else:
         raise ValueError(kind)
+    return r
+
+
+def respell(rng, dims, n):
+    """a WithDims recipe that selects the columns `dims` of an n-dimensional point, in one of the spellings numpy
+    accepts: the index list itself, negative indices, an integer array, a Boolean mask, a slice, a single integer"""
+    r = {"k": "WithDims", "d": n, "dims": list(dims)}
+    opts = ["list", "negative", "array"]
+    if sorted(set(dims)) == list(dims) and len(dims) > 0:
+        opts.append("mask")
+    slices = [[a, b, st] for a in (None, 0, 1, -n, 1 - n) for b in (None, n, n - 1, -1, n + 3) for st in (None, 1, 2, -1)
+              if list(range(*slice(a, b, st).indices(n))) == list(dims)]
+    if slices:
+        opts.append(("slice", rng.choice(slices)))
+    if len(dims) == 1:
+        opts.append("int")
+    o = rng.choice(opts)
+    if o == "negative":
+        r["dims"] = [i - n if rng.random() < 0.7 else i for i in dims]
+    elif o == "array":
+        r["as_array"] = True
+    elif o == "mask":
+        r["dims"] = [i in dims for i in range(n)]
+        r["mask"] = rng.choice(["array", "list"])
+    elif o == "int":
+        r["int"] = dims[0] - (n if rng.random() < 0.5 else 0)
+        del r["dims"]
+    elif isinstance(o, tuple):
+        r["slice"] = o[1]
+        del r["dims"]
     return r
 
 
@@ -344,8 +418,17 @@ def build_fresh(recipe, objs):
     A = lambda rows: np.array([[ff(x) for x in row] for row in rows])
     if k in ("Homogeneous", "Affine", "Similarity"):
         M = A(recipe["M"])
-        if recipe.get("life") == "int" and np.all(M == np.round(M)):
+        life = recipe.get("life")
+        if life == "int" and np.all(M == np.round(M)):
             M = M.astype(np.int64)
+        elif life == "f32" and np.all(M == M.astype(np.float32)):
+            M = M.astype(np.float32)
+        elif life == "fortran":
+            M = np.asfortranarray(M)
+        elif life == "view":      # a non-contiguous view the object keeps (copy=False)
+            big = np.full((2 * M.shape[0], 2 * M.shape[1]), 7.0)
+            big[::2, ::2] = M
+            return getattr(mt, k)(big[::2, ::2], copy=False)
         return getattr(mt, k)(M)
     if k == "Rotation":
         return mt.Rotation(A(recipe["R"]))
@@ -362,8 +445,18 @@ def build_fresh(recipe, objs):
     if k == "TransformChain":
         return mt.TransformChain([objs[i] for i in recipe["members"]])
     if k == "WithDims":
+        if recipe.get("ellipsis"):
+            return mt.WithDims(Ellipsis)
+        if "slice" in recipe:
+            return mt.WithDims(slice(*recipe["slice"]))
+        if "int" in recipe:
+            return mt.WithDims(int(recipe["int"]))
         if recipe.get("mask") == "array":
             return mt.WithDims(np.array(recipe["dims"], dtype=bool))
+        if recipe.get("as_array"):
+            return mt.WithDims(np.array(recipe["dims"], dtype=np.int64))
+        if recipe.get("as_tuple"):
+            return mt.WithDims(tuple(recipe["dims"]))
         return mt.WithDims(list(recipe["dims"]))
     raise ValueError(k)
 
@@ -426,9 +519,7 @@ class World:
         if is_family(o):
             return ("F", o.h_matrix.shape[0] - 1, type(o).__name__, o.h_matrix.copy())
         if is_withdims(o):
-            if is_mask(o.dims):
-                return ("B", [int(bool(x)) for x in o.dims])
-            return ("D", [int(x) for x in o.dims])
+            return dims_cell(o.dims)
         return ("L", i)
 
     def wire_cell(self, i):
@@ -437,8 +528,10 @@ class World:
             return "F %d %s %s" % (c[1], c[2], " ".join(common.fq(float(x)) for x in c[3].ravel()))
         if c[0] == "C":
             return "C %d %s" % (len(c[1]), " ".join(str(x) for x in c[1]))
-        if c[0] in ("D", "B"):
+        if c[0] in ("D", "B", "I"):
             return "%s %d %s" % (c[0], len(c[1]), " ".join(str(x) for x in c[1]))
+        if c[0] == "S":
+            return "S " + " ".join("N" if x is None else str(x) for x in c[1])
         return "L %d" % c[1]
 
 
@@ -459,7 +552,26 @@ def is_withdims(o):
 
 def is_mask(dims):
     import numpy as np
+    if isinstance(dims, (slice, int, np.integer)) or dims is Ellipsis:
+        return False
     return len(dims) > 0 and all(isinstance(x, (bool, np.bool_)) for x in dims)
+
+
+def dims_cell(dims):
+    """the model's cell for the `dims` of a WithDims: ('B', bits) a mask, ('S', [start, stop, step]) a slice,
+    ('D', idx) non-negative indices, ('I', idx) integers of either sign (a single integer is the list of itself:
+    `_apply` keeps its one column two-dimensional)"""
+    import numpy as np
+    if dims is Ellipsis:          # x[:, ...] is x: every axis, as slice(None) selects them
+        return ("S", [None, None, None])
+    if isinstance(dims, slice):
+        return ("S", [None if v is None else int(v) for v in (dims.start, dims.stop, dims.step)])
+    if isinstance(dims, (int, np.integer)) and not isinstance(dims, (bool, np.bool_)):
+        return ("I", [int(dims)])
+    if is_mask(dims):
+        return ("B", [int(bool(x)) for x in dims])
+    idx = [int(x) for x in dims]
+    return ("D", idx) if all(i >= 0 for i in idx) else ("I", idx)
 
 
 def kind_of(o):
@@ -482,9 +594,13 @@ def out_dim(o, n, depth=0):
     if is_family(o):
         return n if o.h_matrix.shape[0] - 1 == n else None
     if is_withdims(o):
-        if is_mask(o.dims):
-            return sum(1 for x in o.dims if x) if len(o.dims) == n else None
-        return len(o.dims) if all(0 <= int(i) < n for i in o.dims) else None
+        c = dims_cell(o.dims)
+        if c[0] == "B":
+            return sum(c[1]) if len(c[1]) == n else None
+        if c[0] == "S":
+            a, b, st = c[1]
+            return None if st == 0 else len(range(*slice(a, b, st).indices(n)))
+        return len(c[1]) if all(-n <= i < n for i in c[1]) else None
     if is_chain(o):
         if depth > 40:
             return None
@@ -889,9 +1005,11 @@ def parse_cell(tokens):
         n = d + 1
         vals = [Fraction(x) for x in tokens[3:3 + n * n]]
         return ("F", d, tokens[2], [vals[i * n:(i + 1) * n] for i in range(n)])
-    if tokens[0] in ("C", "D", "B"):
+    if tokens[0] in ("C", "D", "B", "I"):
         k = int(tokens[1])
         return (tokens[0], [int(x) for x in tokens[2:2 + k]])
+    if tokens[0] == "S":
+        return ("S", [None if x == "N" else int(x) for x in tokens[1:4]])
     return ("L", int(tokens[1]))
 
 
@@ -904,7 +1022,7 @@ def cells_agree(impl, model, mag):
             return False
         m = np.array([[float(x) for x in row] for row in model[3]])
         return close_arrays(impl[3], m, mag)
-    if impl[0] in ("C", "D", "B"):
+    if impl[0] in ("C", "D", "B", "I", "S"):
         return list(impl[1]) == list(model[1])
     return True
 
@@ -982,14 +1100,17 @@ def queue_apply_checks(ctx, w, cid, table_wire, rp, aux, limit=2):
     cands = [i for i, o in enumerate(w.objs) if (is_chain(o) or is_withdims(o)) and all_leaves_exact(o)
              and not any(reaches(t, o) for t in getattr(o, "transforms", []))]
     ctx.rng.shuffle(cands)
+    if any(is_family(o) and not np.isfinite(o.h_matrix).all() for o in w.objs):
+        ctx.count("skipped:non-finite-matrix-in-store")      # the oracle has judged it; the model has no inf / nan
+        return
     cells = " ".join(w.wire_cell(i) for i in range(len(w.objs)))
     for i in cands[:limit]:
         o = w.objs[i]
         n = in_dim(o) if (ctx.rng.random() < 0.8 and in_dim(o)) else ctx.rng.choice([2, 3])
         x = np.array([[float(dy(ctx.rng, 12, 2)) for _ in range(n)]])
         try:
-            y = np.asarray(o.apply(x))[0]
-            got = ("ok", y)
+            Y = np.asarray(o.apply(x))
+            got = ("ok", Y[0]) if Y.ndim == 2 and Y.shape[0] == 1 else ("raises", "bad-shape%r" % (Y.shape,))
         except Exception as e:
             got = ("raises", type(e).__name__)
         fuel = len(w.objs) + 2
@@ -1155,6 +1276,130 @@ def gen_program(ctx, d, n_atoms, n_stmts, inplace_bias=0.4, mixed=False, fv_bias
     return recipes, stmts
 
 
+def integral_atom(rng, kind, d):
+    """Homogeneous / Affine / Similarity with an integer-valued, invertible matrix (exact in int64 and float32)"""
+    S = lambda rows: [[fs(x) for x in row] for row in rows]
+    one = lambda i, j: Fraction(int(i == j))
+    if kind == "Similarity":
+        # signed permutation of determinant +1 times an integer scale
+        R = [[one(i, j) for j in range(d)] for i in range(d)]
+        for _ in range(rng.randint(1, 3)):
+            i, j = rng.sample(range(d), 2)           # quarter turn in the (i, j) plane
+            Q = [[one(a, b) for b in range(d)] for a in range(d)]
+            Q[i][i], Q[j][j], Q[i][j], Q[j][i] = Fraction(0), Fraction(0), Fraction(-1), Fraction(1)
+            R = [[sum(Q[a][k] * R[k][b] for k in range(d)) for b in range(d)] for a in range(d)]
+        sc = rng.choice([1, 2, -2, 3])
+        lin = [[sc * x for x in row] for row in R]
+        bottom = None
+    else:
+        while True:
+            lo = [[one(i, j) if i <= j else Fraction(rng.randint(-2, 2)) for j in range(d)] for i in range(d)]
+            up = [[one(i, j) if i >= j else Fraction(rng.randint(-2, 2)) for j in range(d)] for i in range(d)]
+            dg = [Fraction(rng.choice([1, -1, 2, -2, 3])) for _ in range(d)]
+            lin = [[sum(lo[i][k] * dg[k] * up[k][j] for k in range(d)) for j in range(d)] for i in range(d)]
+            bottom = None
+            if kind == "Homogeneous":
+                bottom = [Fraction(rng.randint(-1, 1)) for _ in range(d)] + [Fraction(1)]
+                if not any(bottom[:d]):
+                    bottom[0] = Fraction(1)
+            m = hmat(lin, [Fraction(rng.randint(-4, 4)) for _ in range(d)], bottom)
+            if abs(det_exact(m)) >= 1:
+                return {"k": kind, "d": d, "M": S(m)}
+    return {"k": kind, "d": d, "M": S(hmat(lin, [Fraction(rng.randint(-4, 4)) for _ in range(d)], bottom))}
+
+
+def identity_atom(rng, kind, d):
+    """the identity map as a member of the class (all parameters zero): nothing it is composed with may change"""
+    S = lambda rows: [[fs(x) for x in row] for row in rows]
+    eye = [[Fraction(int(i == j)) for j in range(d)] for i in range(d)]
+    r = {"k": kind, "d": d}
+    if kind in ("Homogeneous", "Affine", "Similarity"):
+        r["M"] = S(hmat(eye, [Fraction(0)] * d))
+    elif kind == "Rotation":
+        r["R"] = S(eye)
+    elif kind == "Translation":
+        r["t"] = ["0"] * d
+    elif kind == "UniformScale":
+        r["s"] = "1"
+    elif kind == "NonUniformScale":
+        r["v"] = ["1"] * d
+    else:
+        src = cloud(rng, d)
+        r["src"], r["tgt"] = S(src), S(src)
+    return r
+
+
+def dtype_battery(ctx, d, table_wire, pending, tag, aux=None):
+    """operands whose h_matrix is integer typed, float32, Fortran ordered or a non-contiguous view the object keeps
+    (integer-valued matrices: every product is exact in each of these types): all four calls with an ordinary
+    partner in both positions, with itself, and the vector entry point"""
+    rng = ctx.rng
+    n = 0
+    for ka in ("Homogeneous", "Affine", "Similarity"):
+        for life in ("int", "f32", "fortran", "view"):
+            kb = rng.choice(FAMILY)
+            recipes = [dict(integral_atom(rng, ka, d), life=life), gen_atom(rng, kb, d),
+                       dict(integral_atom(rng, ka, d), life=rng.choice(["int", "f32", "fortran", "view"]))]
+            a = build(recipes[0], [])
+            stmts = [("cb", 0, 1), ("ca", 0, 1), ("cb", 1, 0), ("cb", 0, 0), ("cb", 0, 2), (rng.choice(["cbi", "cai"]), 0, 2),
+                     ("ca", 2, 0), (rng.choice(["cbi", "cai"]), 0, 1), (rng.choice(["cbi", "cai"]), 1, 0),
+                     ("fv", 2, gen_vector(rng, a)), ("cb", 2, 1)]
+            cid = "%s%d_%d" % (tag, d, n)
+            n += 1
+            w = run_program(ctx, recipes, stmts, cid, table_wire, pending, "dtype / memory layout battery (%s)" % life, aux)
+            if w is None:
+                continue
+            for st in stmts:
+                ctx.count("dtype:%s" % life)
+                ctx.case(("dtype", d, life, ka, kb, json.dumps(st), json.dumps(recipes, sort_keys=True)), nontrivial=True,
+                         sample={"d": d, "h_matrix": life, "call": "%s %s" % (ka, st[0])})
+
+
+def alias_battery(ctx, d, table_wire, pending, tag, aux=None):
+    """operands that are one and the same object, and chains that hold one member twice: a.compose_before(a),
+    a.compose_after(a), in place with itself (the own class always passes the gate), a chain composed with itself
+    (not in place), a chain gaining a member it already holds; the in-place edits are seen through every position"""
+    rng = ctx.rng
+    n = 0
+    for ka in FAMILY:
+        recipes = [gen_atom(rng, ka, d), gen_atom(rng, rng.choice(FAMILY[1:7]), d),
+                   {"k": "TransformChain", "d": d, "members": [0, 0]},
+                   {"k": "TransformChain", "d": d, "members": [0, 1, 0]}]
+        stmts = [("cb", 0, 0), ("ca", 0, 0), (rng.choice(["cbi", "cai"]), 0, 0), ("cb", 2, 2), ("cbi", 3, 0), ("cai", 3, 1),
+                 ("ca", 0, 4), ("cb", 2, 0), (rng.choice(["cbi", "cai"]), 1, 1), ("ca", 3, 3)]
+        cid = "%s%d_%d" % (tag, d, n)
+        n += 1
+        w = run_program(ctx, recipes, stmts, cid, table_wire, pending, "same object as both operands / member held twice", aux)
+        if w is None:
+            continue
+        for st in stmts:
+            ctx.count("alias:%s" % st[0])
+            ctx.case(("alias", d, ka, json.dumps(st), json.dumps(recipes, sort_keys=True)), nontrivial=True,
+                     sample={"d": d, "alias": "%s %s with itself / chain [a, a]" % (ka, st[0])})
+
+
+def identity_battery(ctx, d, table_wire, pending, tag, aux=None):
+    """the identity as a member of every class (zero parameters), in every position of every call (trivial cases by
+    the rule of the evidence: one operand is the identity map)"""
+    rng = ctx.rng
+    n = 0
+    for ka in FAMILY:
+        kb = rng.choice(FAMILY)
+        recipes = [identity_atom(rng, ka, d), gen_atom(rng, kb, d), identity_atom(rng, rng.choice(FAMILY), d),
+                   {"k": "TransformChain", "d": d, "members": [0, 1]}]
+        stmts = [("cb", 0, 1), ("ca", 0, 1), ("cb", 1, 0), ("ca", 1, 0), ("cb", 0, 2), ("cb", 0, 0),
+                 (rng.choice(["cbi", "cai"]), 0, 2), (rng.choice(["cbi", "cai"]), 1, 0), (rng.choice(["cbi", "cai"]), 0, 1),
+                 ("cb", 3, 0), ("cbi", 3, 2)]
+        cid = "%s%d_%d" % (tag, d, n)
+        n += 1
+        w = run_program(ctx, recipes, stmts, cid, table_wire, pending, "identity operands", aux)
+        if w is None:
+            continue
+        for st in stmts:
+            ctx.count("identity:%s" % st[0])
+            ctx.case(("identity", d, ka, kb, json.dumps(st), json.dumps(recipes, sort_keys=True)), nontrivial=False)
+
+
 def pair_battery(ctx, d, table_wire, pending, tag, aux=None):
     """all ordered pairs of kinds, both directions, non-in-place and in-place, fresh atoms per statement"""
     rng = ctx.rng
@@ -1195,7 +1440,7 @@ def cross_dimension_battery(ctx, table_wire, pending, tag, aux):
             up = rng.random() < 0.3
             da, db = (2, 3) if up else (3, 2)
             dims = rng.choice([[0, 1, 0], [1, 1, 0], [1, 0, 1]]) if up else rng.choice([[0, 1], [0, 2], [2, 1], [1, 0]])
-            recipes = [with_life(rng, gen_atom(rng, ka, da), 0.2), {"k": "WithDims", "d": da, "dims": dims},
+            recipes = [with_life(rng, gen_atom(rng, ka, da), 0.2), respell(rng, dims, da),
                        with_life(rng, gen_atom(rng, kb, db), 0.2)]
             op = rng.choice(["cb", "ca"])
             opi = rng.choice(["cbi", "cai"])
@@ -1607,13 +1852,17 @@ def withdims_battery(ctx, n):
     for k in range(n):
         r3 = gen_atom(rng, rng.choice(FAMILY), 3)
         r2 = gen_atom(rng, rng.choice(FAMILY + ["ThinPlateSplines"]), 2)
-        dims = rng.choice([[0, 1], [0, 2], [2, 1]])
-        t3, t2, wd = build(r3, []), build(r2, []), WithDims(dims)
+        dims = rng.choice([[0, 1], [0, 2], [2, 1], [1, 2]])
+        rw = respell(rng, dims, 3)
+        t3, t2, wd = build(r3, []), build(r2, []), build(rw, [])
+        ctx.count("withdims-spelling:%s" % ("slice" if "slice" in rw else "mask" if "mask" in rw else
+                                            "array" if rw.get("as_array") else
+                                            "negative" if any(i < 0 for i in rw["dims"]) else "list"))
         X = probe_points(rng, 3)
-        rp = {"atoms": [r3, {"k": "WithDims", "dims": dims}, r2],
-              "python": "import sys; sys.path[:0]=['/verif', %r]\nfrom harness import c03\nfrom menpo.transform import WithDims\n"
-              "a = c03.build(%s, []); w = WithDims(%r); b = c03.build(%s, [])\nc = a.compose_before(w).compose_before(b)"
-              % (common.REPO, json.dumps(r3), dims, json.dumps(r2))}
+        rp = {"atoms": [r3, rw, r2],
+              "python": "import sys; sys.path[:0]=['/verif', %r]\nfrom harness import c03\n"
+              "a = c03.build(%s, []); w = c03.build(%s, []); b = c03.build(%s, [])\nc = a.compose_before(w).compose_before(b)"
+              % (common.REPO, json.dumps(r3), json.dumps(rw), json.dumps(r2))}
         objs = [t3, wd, t2]
         before = [digest(o) for o in objs]
         try:
@@ -1650,6 +1899,13 @@ def generated(ctx):
     lfiles, why = trans_c03.generated_files()
     ctx.notes["ladder_translation"] = "ok" if why is None else "untranslatable: " + why
     common.build_generated(ctx, lfiles, trans_c03.GEN_TARGETS, trans_c03.N_OBLIGATIONS)
+    # the ENTRY POINTS (Transform / ComposableTransform / TransformChain / Homogeneous compose_*, _compose_*,
+    # _set_h_matrix, as_non_alignment, from_vector, Affine.decompose, Scale), translated from source and proved equal
+    # to composeCell / inplaceCell / fromVectorCell / chainAdd / rawCompose / nonAlignmentMatrix / decomposeLeaves
+    # (GenProps/C03Entry.lean); the method-resolution table decides which translated body runs on which class
+    efiles, failed = trans_c03.entry_generated_files()
+    ctx.notes["entry_translation"] = "ok" if not failed else "untranslatable: " + "; ".join(failed)
+    common.build_generated(ctx, efiles, trans_c03.ENTRY_TARGETS, trans_c03.ENTRY_OBLIGATIONS)
 
 
 def new_aux():
@@ -1677,6 +1933,9 @@ def search(ctx):
         pair_battery(ctx, d, wire, sink, "s")
         sequel_battery(ctx, d, wire, sink, "t")
         fromvector_battery(ctx, d, wire, sink, "u")
+        dtype_battery(ctx, d, wire, sink, "dt")
+        alias_battery(ctx, d, wire, sink, "al")
+        identity_battery(ctx, d, wire, sink, "id")
         ctx.searched += len(sink)
         if ctx.failures:
             return True
@@ -1712,6 +1971,10 @@ def run(ctx):
         cross_dimension_battery(ctx, w2, pending, "x%d" % rep, aux)
         fromvector_battery(ctx, 2, w2, pending, "v%d_" % rep)
         fromvector_battery(ctx, 3, w3, pending, "v%d_" % rep)
+        for d, wd in ((2, w2), (3, w3)):
+            dtype_battery(ctx, d, wd, pending, "dt%d_" % rep, aux)
+            alias_battery(ctx, d, wd, pending, "al%d_" % rep, aux)
+            identity_battery(ctx, d, wd, pending, "id%d_" % rep, aux)
     nested_chain_battery(ctx, w2, pending, "n", aux)
     self_containing_battery(ctx, w2, aux)
     random_programs(ctx, ctx.n(150, 4000), {2: w2, 3: w3}, pending, "g", long=not ctx.quick(), aux=aux)
